@@ -154,6 +154,16 @@ CHECKS = {
             "(rule x order x nf x NC/CC even/odd class, every nf requested twice in one process) and the verdict per recorded line.",
             "Trusted: TLC, scipy.quad, numerical zeta values. Tolerances: per mille of the constant (authors' stated accuracy of the "
             "parametrisations; measured <= 1.7e-4) plus 3e-5 of int|c| for vanishing constants; closed forms 1e-10.", "DESIGN.md 7/C04"),
+    "C18": ("translation_validation",
+            "differential execution of every njit dispatcher against its interpreted function + arity of every production call site "
+            "(transitive AST bound vs the argument vector passed) + end-to-end runs with compilation on/off; TLC judges every line",
+            "Whether machine code equals the interpreter is outside any TLA+ model: the decision is differential execution. All 143 "
+            "dispatchers are discovered by import and compared with py_func on arguments of their own signature; every registry element "
+            "TLC enumerates is instantiated through the real assembly and, for each of its compiled parts, the largest index the kernel "
+            "(or a kernel it hands the vector to) reads must be below the length of the vector the class passes (ArityCovered) and the "
+            "values must agree to 1e-11; whole runs are repeated in a subprocess with NUMBA_DISABLE_JIT=1 and compared (1e-7).",
+            "Trusted: numba's py_func as the interpreted semantics, python ast for constant indices (dynamic indices are only caught by the "
+            "interpreted end-to-end runs). The numba cache directory is keyed by a hash of the whole source tree.", "DESIGN.md 7/C18"),
 }
 
 PENDING = {}
